@@ -119,17 +119,42 @@ def build_document(case):
         body += ''.join(p_xml(p, form) for p in case['ps'])
         count = len(case['ps'])
     prim = '<%s count="%d" material="m">%s</%s>' % (kind, count, body, kind)
+    nodes = []
+    for i, inst in enumerate(instances_of(case)):
+        mat = '' if inst.get('matrix') is None else '<matrix>%s</matrix>' % ' '.join(num(float(x)) for x in inst['matrix'])
+        bind = ''
+        if inst.get('material'):
+            bind = ('<bind_material><technique_common><instance_material symbol="m" target="#mat%s"/>'
+                    '</technique_common></bind_material>' % inst['material'])
+        nodes.append('<node id="n%d">%s<instance_geometry url="#g">%s</instance_geometry></node>' % (i, mat, bind))
+    fx = ''.join('<effect id="fx%s"><profile_COMMON><technique sid="common"><phong><diffuse><color>%s</color></diffuse>'
+                 '</phong></technique></profile_COMMON></effect>' % (m, c)
+                 for m, c in (('A', '1 0 0 1'), ('B', '0 1 0 1')))
+    mats = ''.join('<material id="mat%s"><instance_effect url="#fx%s"/></material>' % (m, m) for m in 'AB')
     return ('<?xml version="1.0" encoding="UTF-8"?>\n'
             '<COLLADA xmlns="http://www.collada.org/2005/11/COLLADASchema" version="1.4.1">'
             '<asset><created>2020-01-01T00:00:00</created><modified>2020-01-01T00:00:00</modified>'
             '<up_axis>Y_UP</up_axis></asset>'
+            '<library_effects>%s</library_effects><library_materials>%s</library_materials>'
             '<library_geometries><geometry id="g" name="g"><mesh>%s'
             '<vertices id="verts"><input semantic="POSITION" source="#pos"/></vertices>%s'
             '</mesh></geometry></library_geometries>'
-            '<library_visual_scenes><visual_scene id="s"><node id="n"><instance_geometry url="#g"/></node>'
+            '<library_visual_scenes><visual_scene id="s">%s'
             '</visual_scene></library_visual_scenes>'
             '<scene><instance_visual_scene url="#s"/></scene></COLLADA>'
-            % (''.join(srcs), prim)).encode('utf-8')
+            % (fx, mats, ''.join(srcs), prim, ''.join(nodes))).encode('utf-8')
+
+
+def instances_of(case):
+    return case.get('instances') or [{'matrix': None, 'material': None}]
+
+
+def transform(inst, p, translate=True):
+    """R p (+ t) for the instance's row-major 4x4 matrix, in exact small-number arithmetic"""
+    m = inst.get('matrix')
+    if m is None:
+        return [float(x) for x in p]
+    return [sum(m[4 * r + c] * p[c] for c in range(3)) + (m[4 * r + 3] if translate else 0.0) for r in range(3)]
 
 
 def rows_of(p, k):
@@ -271,43 +296,96 @@ def as_triangles(arr, k):
     return [[[int(x) for x in c] for c in tr] for tr in a.tolist()]
 
 
-def check_bound(doc, case, lay, tris, pp, why):
-    """the same primitive reached through the scene (bound to the identity transform) gives the same
-    triangles; evaluated only when there is at least one triangle"""
+class Bound(object):
+    """The primitive bound once per scene instance (the objects are kept, as a viewer keeps them).
+    touch(i) triangulates instance i; the order of the touches relative to each other and to the
+    unbound triangleset() is part of the case."""
+
+    def __init__(self, doc, case):
+        self.case = case
+        self.insts = instances_of(case)
+        self.prims = []
+        self.ts = {}
+        self.error = None
+        try:
+            for bg in doc.scene.objects('geometry'):
+                self.prims.append(list(bg.primitives())[0])
+        except Exception as e:  # noqa
+            self.error = e
+
+    def touch(self, i):
+        if self.error is not None or i in self.ts or i >= len(self.prims):
+            return
+        try:
+            bp = self.prims[i]
+            self.ts[i] = bp.triangleset() if self.case['kind'] in ('polylist', 'polygons') else bp
+        except Exception as e:  # noqa
+            self.error = e
+
+
+def corner_key(vi, vd, nd):
+    return (int(vi), tuple(float(x) for x in vd), None if nd is None else tuple(float(x) for x in nd))
+
+
+def check_bound(bound, case, lay, tris, groups, have_pp, why):
+    """every scene instance of the primitive (its own matrix and material binding) gives the same index
+    rows; the vertices of its triangles are its own transform of the rows' positions; and what its
+    triangleset() delivers per corner is what its own polygons deliver.  Only when there is a triangle."""
     kind, k = case['kind'], case['nind']
     if not tris:
         return
+    for i in range(len(bound.insts)):
+        bound.touch(i)
+    if bound.error is not None:
+        return why('bound', type(bound.error).__name__, 'triangles through the scene raised %r' % (bound.error,))
+    if len(bound.prims) != len(bound.insts):
+        return why('bound', 'instances', '%d bound geometries for %d scene instances' % (len(bound.prims), len(bound.insts)))
+    tb = lay.tb
+    all_finite = all(finite(p_) for p_ in tb['pos']) and all(finite(x) for t_ in tb['nrm'] for x in t_)
+    voff = lay.off(lay.v)
     try:
-        bg = list(doc.scene.objects('geometry'))[0]
-        bp = list(bg.primitives())[0]
-        bts = bp.triangleset() if kind in ('polylist', 'polygons') else bp
-        bidx = as_triangles(bts.index, k)
-        if bidx != tris:
-            return why('bound', 'index', 'bound triangle set has index %r, unbound %r' % (bidx, tris))
-        voff = lay.off(lay.v)
-        for ti, tr in enumerate(bts):
-            for c in range(3):
-                want = lay.data(lay.v, tris[ti][c][voff])
-                # the identity transform is a matrix product: rows with NaN/inf do not survive it
-                if finite(want) and not same(tr.vertices[c], want):
-                    return why('bound', 'vertex', 'bound triangle %d corner %d: vertex is not that of its row' % (ti, c))
-        if pp is not None and kind in ('polylist', 'polygons'):
-            for pi in range(len(bp)):
-                got = [[int(x) for x in tr.indices] for tr in bp[pi].triangles()]
-                want = [[c[0] for c in tr] for tr in pp[pi]]
-                if got != want:
-                    return why('bound', 'Polygon.triangles', 'bound polygon %d triangulates to %r, unbound %r' % (pi, got, want))
+        for i, inst in enumerate(bound.insts):
+            bts = bound.ts[i]
+            bidx = as_triangles(bts.index, k)
+            if bidx != tris:
+                return why('bound', 'index', 'instance %d: bound triangle set has index %r, unbound %r' % (i, bidx, tris))
+            whole = []
+            for ti, tr in enumerate(bts):
+                cs = []
+                for c in range(3):
+                    src = lay.data(lay.v, tris[ti][c][voff])
+                    # a transform is a matrix product: rows with inf do not survive it exactly
+                    if finite(src) and not same(tr.vertices[c], transform(inst, src)):
+                        return why('bound', 'vertex', 'instance %d (matrix %r), triangle %d corner %d: vertex %r is not the '
+                                   'transformed position %r of its row' % (i, inst.get('matrix'), ti, c,
+                                                                            [float(x) for x in tr.vertices[c]], transform(inst, src)))
+                    has_n = tr.normal_indices is not None and hasattr(tr.normal_indices, '__len__')
+                    cs.append(corner_key(tr.indices[c], tr.vertices[c], tr.normals[c] if has_n else None))
+                whole.append(cs)
+            if have_pp and kind in ('polylist', 'polygons') and all_finite:
+                bp = bound.prims[i]
+                pos = 0
+                for pi in range(len(bp)):
+                    mine = []
+                    for tr in bp[pi].triangles():
+                        has_n = tr.normal_indices is not None
+                        mine.append([corner_key(tr.indices[c], tr.vertices[c], tr.normals[c] if has_n else None)
+                                     for c in range(3)])
+                    part = whole[pos:pos + len(groups[pi])]
+                    pos += len(groups[pi])
+                    if Counter(canon(x) for x in mine) != Counter(canon(x) for x in part):
+                        return why('bound', 'per-polygon', 'instance %d (matrix %r) polygon %d: triangleset() delivers %r, '
+                                   'the instance\'s own polygon %r (vertex index, vertex, normal per corner)'
+                                   % (i, inst.get('matrix'), pi, part, mine))
     except Exception as e:  # noqa
         return why('bound', type(e).__name__, 'triangles through the scene raised %r' % (e,))
 
 
-def observe_bound(doc, case):
-    """index of the same primitive reached through the scene (None when it cannot be observed)"""
+def observe_bound(bound, case):
+    """index of the first scene instance of the primitive (None when it cannot be observed)"""
     try:
-        bg = list(doc.scene.objects('geometry'))[0]
-        bp = list(bg.primitives())[0]
-        bts = bp.triangleset() if case['kind'] in ('polylist', 'polygons') else bp
-        return as_triangles(bts.index, case['nind'])
+        bound.touch(0)
+        return as_triangles(bound.ts[0].index, case['nind'])
     except Exception:  # noqa
         return None
 
@@ -342,6 +420,10 @@ def run_case(case):
         return out
     lay = Layout(case)
     v, nn, t = offsets_of(case)
+    bound = Bound(doc, case)
+    order = case.get('order') or ['u'] + list(range(len(bound.insts)))
+    for item in order[:order.index('u')] if 'u' in order else []:
+        bound.touch(item)         # instances triangulated before the unbound primitive is
 
     if kind in ('tristrips', 'trifans'):
         idx = prim.index
@@ -360,10 +442,13 @@ def run_case(case):
             if got and not cands:
                 why('attached', 'Triangle', 'triangle %d: the delivered vertex/normal/texcoord indices or data '
                     'are not those of its rows %r under any assignment of inputs' % (at, got[at]))
+        for item in order:
+            if item != 'u':
+                bound.touch(item)
         if out['index']:
-            out['bound_index'] = observe_bound(doc, case)
+            out['bound_index'] = observe_bound(bound, case)
         if not fails:
-            check_bound(doc, case, lay, out['index'], None, why)
+            check_bound(bound, case, lay, out['index'], None, False, why)
         return out
 
     # polylist / polygons
@@ -458,10 +543,13 @@ def run_case(case):
             elif whole is not None and not [a for a in good if a in whole]:
                 why('per-polygon', 'agrees', 'Polygon.triangles() and triangleset() attach different inputs to the same '
                     'corners: per polygon %r, whole primitive %r (normal input, texcoord inputs by slot)' % (good, whole))
+    for item in order:
+        if item != 'u':
+            bound.touch(item)
     if out['tri_index']:
-        out['bound_index'] = observe_bound(doc, case)
+        out['bound_index'] = observe_bound(bound, case)
     if not fails:
-        check_bound(doc, case, lay, out['tri_index'], out['pp'], why)
+        check_bound(bound, case, lay, out['tri_index'], exp_groups, out['pp'] is not None, why)
     return out
 
 
